@@ -72,7 +72,7 @@ CLAIMED = {
    note="Sequences of <=3 (4) operations; Go's builtin map is modelled as an association list with symbolic key equality. The interval tree (draws from global math/rand, no native replay), 'few thousand operations' and key types other than integers are outside.",
    design="3 C51"),
  "C37": dict(
-   text="Lexer kernel: the real lexer.Lex and the whole token stream (Next() to EOF) on every byte string - all byte values incl. invalid UTF-8 - of <=2 bytes alone (3 free bytes = 93 000 paths did not finish in 2 h), and after fixed prefixes that put the lexer into its modes with <=2 free bytes (string template, after a leading 0; thorough also after a fraction point and an arrow), <=3 free bytes (string; line comment: 4 in thorough) or <=4 free bytes (block comment), plus every 3..5 (6) bytes >= 0x80 alone / in a line comment / string / block comment: no crash and no internal error, every token and the EOF position inside the input, tokens contiguous in order and covering the input (unless lexing stopped at an error token), lines match offsets, columns match offsets in one convention (bytes or characters) for the whole stream; and a pooled lexer that lexed another text before (6 texts leaving mode, bracket count, position, cursor and tokens behind) yields, for an optional template opener plus 2 free bytes (quick: from 12 mode-sensitive characters; thorough: any byte), exactly the tokens of a fresh lexer.",
+   text="Lexer kernel: the real lexer.Lex and the whole token stream (Next() to EOF) on every byte string - all byte values incl. invalid UTF-8 - of <=2 bytes alone (3 free bytes = 93 000 paths did not finish in 2 h), and after fixed prefixes that put the lexer into its modes with <=2 free bytes (string template, after a leading 0; thorough also after a fraction point and an arrow), <=3 free bytes (string, line comment) or <=4 free bytes (block comment), plus every 3..5 (6) bytes >= 0x80 alone / in a line comment / string / block comment: no crash and no internal error, every token and the EOF position inside the input, tokens contiguous in order and covering the input (unless lexing stopped at an error token), lines match offsets, columns match offsets in one convention (bytes or characters) for the whole stream; and a pooled lexer that lexed another text before (6 texts leaving mode, bracket count, position, cursor and tokens behind) yields, for an optional template opener plus 2 free bytes (quick: from 12 mode-sensitive characters; thorough: any byte), exactly the tokens of a fresh lexer.",
    note="Part of C37: the lexer only; parser and checker totality/positions are outside (a symbolic token stream/AST is out of reach). sync.Pool modelled as 'Get returns the last Put object, else New()'; unicode/utf8.DecodeRune runs from source. Two known findings (unterminated block comment content in no token; column drift after an empty string token), three defects fixed. A token limit that only triggers after > 500 000 tokens (seeded change C37-token-limit-checks-capacity) is beyond every bound.",
    design="3 C37"),
  "C44": dict(
